@@ -71,6 +71,12 @@ func (d *dialer) Close() error {
 		d.redialer.Stop()
 	}
 	d.closed = true
+	// A transport dialer that can be closed gives up the connection
+	// attempt it may be in the middle of (a peer that accepted the
+	// connection but does not answer the handshake).
+	if c, ok := d.d.(interface{ Close() error }); ok {
+		_ = c.Close()
+	}
 	return nil
 }
 
